@@ -3,15 +3,39 @@
 compare with /root/.vp/BASELINE.json stable_pass. Exit 0 iff every stable test passed."""
 import json, os, subprocess, sys, xml.etree.ElementTree as ET
 repo = os.path.abspath(sys.argv[1])
+touched = None
+if "--touched" in sys.argv:
+    touched = [c for c in sys.argv[sys.argv.index("--touched") + 1].split(",") if c]
 env = dict(os.environ, CARGO_NET_OFFLINE="true")
 env.pop("RUSTFLAGS", None)
 junit = os.path.join(repo, "target", "nextest", "pb", "junit.xml")
 if os.path.exists(junit):
     os.remove(junit)
-p = subprocess.run(["cargo", "nextest", "run", "--workspace", "--no-fail-fast", "--offline", "--tool-config-file",
+scope = ["--workspace"]
+closure = None
+if touched:
+    # a source change in crate X can only affect the tests of X and of the workspace crates that depend on X
+    md = json.loads(subprocess.run(["cargo", "metadata", "--offline", "--format-version", "1", "--no-deps"], cwd=repo, env=env,
+                                   capture_output=True, text=True).stdout)
+    deps = {pk["name"]: {d["name"] for d in pk["dependencies"]} for pk in md["packages"]}
+    closure = set(touched)
+    changed = True
+    while changed:
+        changed = False
+        for n, ds in deps.items():
+            if n not in closure and ds & closure:
+                closure.add(n)
+                changed = True
+    scope = []
+    for c in sorted(closure):
+        scope += ["-p", c]
+    print("scope: tests of %s" % ", ".join(sorted(closure)))
+p = subprocess.run(["cargo", "nextest", "run"] + scope + ["--no-fail-fast", "--offline", "--tool-config-file",
                     "pb:/w/lib/nextest.toml", "--profile", "pb", "--test-threads", "8"], cwd=repo, env=env,
                    capture_output=True, text=True)
 base = json.load(open("/root/.vp/BASELINE.json"))["stable_pass"]
+if closure is not None:
+    base = [t for t in base if t.split("::", 1)[0] in closure]
 if not os.path.exists(junit):
     print("no junit output; build failed?\n" + p.stderr[-3000:])
     sys.exit(2)
